@@ -8,6 +8,7 @@ import c15
 import c14
 import nhfamily
 import c17b
+import c11b
 
 CHECKS = {}
 CHECKS["RAFT"] = raftfamily.check_all
@@ -54,7 +55,24 @@ CHECKS["C15"] = c15.check
 CHECKS["C14"] = c14.check
 CHECKS["C01"] = nhfamily.check_c01
 CHECKS["C04"] = nhfamily.check_c04
-CHECKS["C11"] = nhfamily.check_c11
+
+
+def _c11(prop, tier, replay_path):
+    """C11 = contract observed on real NodeHost clusters (nhsim smc) + life cycle schedules from Lifecycle.tla
+    replayed on the real engine (lcsim)"""
+    import json
+    if replay_path:
+        with open(replay_path) as fh:
+            kind = json.load(fh).get("kind")
+        if kind == "TestVerifLcsim":
+            return c11b.check(prop, tier, replay_path)
+        return nhfamily.check_c11(prop, tier, replay_path)
+    a = nhfamily.check_c11(prop, tier, None)
+    b = c11b.check(prop, tier, None)
+    return 1 if 1 in (a, b) else max(a, b)
+
+
+CHECKS["C11"] = _c11
 
 
 def _c16(prop, tier, replay_path):
